@@ -325,6 +325,9 @@ func (g *seqGen) mkDump(srv *Srv, who string) *Dump {
 	DumpTolerantShort = func() bool { fb, _ := srv.Free(); return fb < 64 }
 	d := DumpAPIx(srv.API, who, g.ext)
 	DumpTolerantShort = nil
+	if d.Dead {
+		srv.Wedged = true
+	}
 	return d
 }
 
@@ -669,6 +672,10 @@ func RunSeq(cfg SeqCfg, t *Trace, seg int) error {
 		}
 		if cfg.DumpEach > 0 && n%cfg.DumpEach == cfg.DumpEach-1 {
 			g.dump("run")
+			if g.s.Wedged {
+				Mon.Reset()
+				return nil
+			}
 		}
 		if cfg.Restarts && g.r.Intn(60) == 0 {
 			g.restart()
